@@ -21,7 +21,7 @@ ASSUMPTIONS = [
 ]
 BUDGET = {"quick": 6000, "thorough": 200000}
 TIME_CAP = {"quick": 75, "thorough": 1500}
-PROFILE = {"p_programs": 0.3, "p_function": 0.3, "extreme": 0.15, "max_steps": 25, "p_timed": 0.5, "p_junction": 0.5}
+PROFILE = {"p_programs": 0.3, "p_second_type": 0.15, "p_function": 0.3, "extreme": 0.15, "max_steps": 25, "p_timed": 0.5, "p_junction": 0.5}
 
 STARTS = [2000.0, 2000.5, 1999.75, 2017.0, 2001.25, 1990.0, 2000.1]
 SPANS = [0.0, 0.3, 1.0, 1.5, 2.0, 3.0, 5.0, 7.7, 10.0, 10.2, 15.0, 20.0, 33.0, 35.0, 50.0]
